@@ -1039,16 +1039,39 @@ func (cc *ClientConn) internalRoundTrip(req *http.Request, streamf func(*clientS
 				// golang.org/issue/49645
 				return handleResponseHeaders()
 			default:
+				cs.discardResponseBody()
 				waitDone()
 				return nil, cs.abortErr
 			}
 		case <-ctx.Done():
 			err := ctx.Err()
 			cs.abortStream(err)
+			cs.discardResponseBody()
 			return nil, cancelRequest(cs, err)
 		case <-cs.reqCancel:
 			cs.abortStream(errRequestCanceled)
+			cs.discardResponseBody()
 			return nil, cancelRequest(cs, errRequestCanceled)
+		}
+	}
+}
+
+// discardResponseBody is called when RoundTrip fails: no Response will be
+// handed to the caller, so response DATA that is buffered or still arrives while
+// the stream lingers (e.g. a Request.Body Read that has not returned yet) must
+// not be kept: its flow control is returned, like transportResponseBody.Close does.
+func (cs *clientStream) discardResponseBody() {
+	cc := cs.cc
+	cs.bufPipe.BreakWithError(errClosedResponseBody)
+	if unread := cs.bufPipe.Len(); unread > 0 {
+		cc.mu.Lock()
+		connAdd := cc.inflow.add(unread)
+		cc.mu.Unlock()
+		if connAdd > 0 {
+			cc.wmu.Lock()
+			cc.fr.WriteWindowUpdate(0, uint32(connAdd))
+			cc.bw.Flush()
+			cc.wmu.Unlock()
 		}
 	}
 }
